@@ -58,4 +58,22 @@ META = {
         "note": "Trusted: as C10. Isolation for the four unsessioned types across sessions is not claimed (they ignore the session by documented design). Findings K-C11-1..4 recorded, not repaired.",
         "technique": "Coq proof (list lemmas on the first dot / equal-length tails; induction over histories for non-interference) + adversarial and exhaustive small-alphabet correspondence with an isolation monitor on the observed results",
     },
+    "C02": {
+        "text": "Theorems over an executable model of Page.Render/joinSink/GetAt/Menu.Render for ALL row lists, all values of `remaining` and all label sizes (induction over the rows with a loop invariant): "
+                "the pages delivered by GetAt for idx 0..n-1 are a partition of the rows into contiguous non-empty blocks in order, one cursor per page, every idx >= n is an error; template text, "
+                "error prefix, non-sink values and ordinary menu lines are on every page and the browse lines are exactly next iff i+1<n, previous iff 0<i; a page past the end of a page with a menu is an "
+                "error; no Go panic site of Page.Render is reachable; under budget_ok joinSink succeeds and every page with its browse entries fits. The findings (empty rows, NUL bytes, tight budget, "
+                "mis-measured labels) are stated as decidable guards with vm_compute refutation witnesses, and are re-found on the real code on every run. Tied to render/*.go by stepwise comparison "
+                "of a real Page/Menu/Sizer against the model on generated pages and by driving the private joinSink.",
+        "design_ref": "DESIGN.md section 6 C02, Appendix A (render rows)",
+        "note": "Trusted: Coq kernel, harness, the text/template fragment. offered_page_renders is proved for the paginator only (partial): the lift to Page.Render needs 'sink mentioned once' and 'labels measured correctly'. Engine-level walk over '>'/'<' histories is not part of these files.",
+        "technique": "Coq proof (loop invariants by induction over rows; case analysis of the render pipeline) + refutation witnesses + stepwise model/implementation correspondence by vm_compute",
+    },
+    "C01": {   # page level
+        "text": "render_fits: for every template, value map, menu, browse configuration, error prefix, leftover cursor state and index, an Ok result of Page.Render is at most outputSize bytes (nothing is appended after the final Sizer.Check; prepare never changes outputSize); "
+                "no_silent_truncation (partial): an Ok page is exactly the instantiated template (error prefix and extra spliced into the source) followed by the complete Menu.Render text, every non-sink symbol with its full mapped value.",
+        "design_ref": "DESIGN.md section 6 C01",
+        "note": "Page level only. The sink symbol's rows are covered by C02_pages_partition_partial.",
+        "technique": "Coq proof + correspondence by vm_compute",
+    },
 }
